@@ -534,15 +534,33 @@ func c18Calculator(ops []Op, run *Run, out *Outcome) int {
 	defaultRemoved := false                      // a default function was removed from this calculator: generated expressions may now lack a function
 	curFn := ""                                  // function called by the current expression when it was set by callfn
 	fnKnown := func(string) bool { return true } // set below, once the function model exists
+	// The default collection is compared as a set keyed by the upper-cased name: the statement fixes
+	// "exactly one entry per name compared case-insensitively, keeping entries and values already
+	// there", not the spelling or the position of entries that auto-variables add.
 	compareDefaults := func(i int, o Op) bool {
 		dv := calc.DefaultVariables()
-		if dv.Length() != len(model) {
-			out.Violate("auto-variables", "C18/calc/defaults/"+o.Op, "op %d (%s %q): default collection has %d entries %s, model %s", i, o.Op, o.S, dv.Length(), c18CollStr(dv), c18ModelStr(model))
+		got := map[string]string{}
+		for _, v := range dv.GetAll() {
+			u := strings.ToUpper(v.Name())
+			if _, dup := got[u]; dup {
+				out.Violate("auto-variables", "C18/calc/defaults/"+o.Op, "op %d (%s %q): default collection %s holds two entries for %q", i, o.Op, o.S, c18CollStr(dv), v.Name())
+				return false
+			}
+			got[u] = FromVariant(v.Value()).String()
+		}
+		want := map[string]string{}
+		for _, e := range model {
+			u := strings.ToUpper(e.name)
+			if _, dup := want[u]; !dup {
+				want[u] = e.val.String()
+			}
+		}
+		if len(got) != len(want) {
+			out.Violate("auto-variables", "C18/calc/defaults/"+o.Op, "op %d (%s %q): default collection %s, model %s", i, o.Op, o.S, c18CollStr(dv), c18ModelStr(model))
 			return false
 		}
-		for j, e := range model {
-			g := dv.Get(j)
-			if g.Name() != e.name || !FromVariant(g.Value()).Equal(e.val) {
+		for u, v := range want {
+			if got[u] != v {
 				out.Violate("auto-variables", "C18/calc/defaults/"+o.Op, "op %d (%s %q): default collection %s, model %s", i, o.Op, o.S, c18CollStr(dv), c18ModelStr(model))
 				return false
 			}
@@ -591,12 +609,21 @@ func c18Calculator(ops []Op, run *Run, out *Outcome) int {
 				out.Probes["func_not_found_named"]++
 			}
 		}
+		names := func(list []string) bool {
+			for _, n := range list {
+				if n != "" && strings.Contains(strings.ToUpper(msg), strings.ToUpper(n)) {
+					return true
+				}
+			}
+			return false
+		}
 		if curSimple {
+			// the error code is not fixed by the statement: "reported as an error naming it"
 			switch {
-			case len(miss) > 0 && code != "VAR_NOT_FOUND" && !(curUnknownFn != "" && code == "FUNC_NOT_FOUND"):
+			case len(miss) > 0 && !(err != nil && (names(miss) || names([]string{curUnknownFn}))):
 				out.Violate("missing-variable", "C18/calc/missing-variable-not-reported", "op %d: variables %q are missing from %s but evaluation gave result %s error %q", i, miss, c18ModelStr(coll), FromVariant(res), msg)
 				return false
-			case len(miss) == 0 && curUnknownFn != "" && code != "FUNC_NOT_FOUND":
+			case len(miss) == 0 && curUnknownFn != "" && !(err != nil && names([]string{curUnknownFn})):
 				out.Violate("missing-function", "C18/calc/missing-function-not-reported", "op %d: function %q does not exist but evaluation gave result %s error %q", i, curUnknownFn, FromVariant(res), msg)
 				return false
 			case len(miss) == 0 && curUnknownFn == "" && (code == "VAR_NOT_FOUND" || code == "FUNC_NOT_FOUND"):
@@ -741,7 +768,7 @@ func c18Calculator(ops []Op, run *Run, out *Outcome) int {
 					out.Violate("first-added-wins", "C18/calc/function-shadowed-default", "op %d: %s%s evaluated to %s: a custom function added later was called instead of the default one", i, o.S, args, got)
 					return changes
 				}
-				if ErrCode(err) == "FUNC_NOT_FOUND" {
+				if ErrCode(err) == "FUNC_NOT_FOUND" || (err != nil && strings.Contains(strings.ToLower(ErrMessage(err)), "not found")) {
 					out.Violate("missing-function", "C18/calc/default-function-lost", "op %d: calculator %d no longer finds the default function %q although it was never removed from it: %q", i, which, o.S, ErrMessage(err))
 					return changes
 				}
@@ -753,7 +780,7 @@ func c18Calculator(ops []Op, run *Run, out *Outcome) int {
 				}
 				out.Probes["custom_function_resolved"]++
 			default:
-				if ErrCode(err) != "FUNC_NOT_FOUND" || !strings.Contains(strings.ToUpper(ErrMessage(err)), strings.ToUpper(o.S)) {
+				if err == nil || !strings.Contains(strings.ToUpper(ErrMessage(err)), strings.ToUpper(o.S)) {
 					out.Violate("missing-function", "C18/calc/missing-function-not-reported", "op %d: no function %q exists in calculator %d but evaluation gave %s err %q", i, o.S, which, got, ErrMessage(err))
 					return changes
 				}
@@ -984,7 +1011,8 @@ func c18Template(ops []Op, run *Run, out *Outcome) int {
 		out.State("tmpl", len(model), auto, o.Op)
 		// compare default map with the model: same keys (case-insensitively one entry per discovered name), same values
 		got := t.DefaultVariables()
-		if snapshotMap(got) != snapshotMap(model) {
+		// spelling of keys that auto-variables add is not fixed: compare (upper-cased key, value) multisets
+		if snapshotMapUpper(got) != snapshotMapUpper(model) {
 			out.Violate("auto-variables", "C18/tmpl/defaults/"+o.Op, "op %d (%s %q): default variables %s, model %s", i, o.Op, o.S, snapshotMap(got), snapshotMap(model))
 			return changes
 		}
@@ -1028,4 +1056,13 @@ func c18CheckNamesSet(reported, want []string) string {
 		}
 	}
 	return ""
+}
+
+func snapshotMapUpper(m map[string]string) string {
+	var items []string
+	for k, v := range m {
+		items = append(items, strings.ToUpper(k)+"="+v)
+	}
+	sort.Strings(items)
+	return strings.Join(items, ";")
 }
